@@ -194,7 +194,13 @@ func GenOp(t *rapid.T, w *World, p *Profile) Op {
 		}
 		x -= p.Weights[k]
 	}
-	return w.genKind(t, kind, p)
+	op := w.genKind(t, kind, p)
+	if shape := w.ExcludedShape(op); shape != "" {
+		// the trigger of a listed known finding slipped through the per-kind filters: keep it out, count it
+		w.Excl(shape)
+		return Op{Kind: OpSchedule}
+	}
+	return op
 }
 
 func (w *World) leafChoices() []string {
